@@ -701,7 +701,13 @@ func ruleHashShape(c *Ctx, r *Rep) {
 						}
 						continue
 					}
-					own[jsonName(u, i)] = true
+					if f.Exported() && strings.Split(reflectTagGet(u.Tag(i), "json"), ",")[0] != "-" {
+						if own[jsonName(u, i)] {
+							// two fields of one struct under one name: encoding/json writes neither
+							r.Bad("json-name-unique|"+path+"."+jsonName(u, i), c.Pos(f.Pos()), "every field of a hashed struct has a JSON name of its own (encoding/json leaves out, without a word, fields that share one)", sprintf("%s is the name of a second field (%s)", jsonName(u, i), f.Name()))
+						}
+						own[jsonName(u, i)] = true
+					}
 				}
 				for name, k := range promoted {
 					if own[name] || k > 1 {
@@ -801,6 +807,27 @@ func ruleJSONOmitEmpty(c *Ctx, r *Rep) {
 		}
 	}
 	r.Ok("fields-scanned", "", "the fields of the hashed and compared types were looked at", sprintf("%d", n))
+}
+
+func init() {
+	register(&Rule{Name: "HASH-FIELDS", Floor: 12, Run: ruleHashFields,
+		Doc: "every field of the configuration content (subject, serial number, unique ids, ...) reaches the JSON the hash is computed from: exported, not json:\"-\", under a JSON name no second field of the struct has, not shadowed by a promoted field; an edit of such a field therefore changes the hash and the certificate is made again"})
+}
+
+// ruleHashFields re-uses the type walk of HASH-SHAPE and keeps what it says about single fields (the pairwise
+// distinguishability of extension kinds, with its known findings, stays with the hash property).
+func ruleHashFields(c *Ctx, r *Rep) {
+	sub := RunRule(c, rules["HASH-SHAPE"])
+	for _, o := range sub.Obs {
+		for _, p := range []string{"visible|content.", "json-name-unique|", "promoted-field-kept|", "custom-marshal|"} {
+			if strings.HasPrefix(o.Key, p) && (p != "visible|content." || strings.Count(o.Key, ".") == 1) {
+				r.Obs = append(r.Obs, Obligation{Rule: r.rule, Key: o.Key, Pos: o.Pos, Expected: o.Expected, Found: o.Found, Status: o.Status})
+			}
+		}
+		if strings.HasPrefix(o.Key, "anchor:") {
+			r.Undecided(o.Key, o.Pos, o.Found)
+		}
+	}
 }
 
 func init() {
